@@ -131,8 +131,9 @@ Definition names (s : bytes) : list bytes := map snd (fst (parse s)).
 Definition d_sound (s1 : bytes) : bool := nodupb (names s1).
 
 (* domain of the no-panic theorem: s1 is a well-formed template (at least one placeholder, no "}" in
-   the literal text before the last placeholder ends), the literal prefix fits into s2, and either the
-   template ends with a placeholder, or it has a single placeholder and prefix + suffix fit into s2 *)
+   the literal text before the last placeholder ends, no unclosed "${" after it), the literal prefix fits
+   into s2, and either the template ends with a placeholder, or it has a single placeholder and
+   prefix + suffix fit into s2 *)
 Definition no_rb (l : bytes) : bool := negb (existsb (N.eqb 125) l).
 
 Definition d_total (s1 s2 : bytes) : bool :=
@@ -140,6 +141,7 @@ Definition d_total (s1 s2 : bytes) : bool :=
   | [] => false
   | (l0, _) :: t =>
     forallb (fun ln => no_rb (fst ln)) (fst (parse s1)) &&
+    negb (contains DB (snd (parse s1))) &&
     (len l0 <=? len s2) &&
     match snd (parse s1) with
     | [] => true
